@@ -2,7 +2,8 @@
 // RAII guards on arguments and locals, counting frame storage (with_allocator / coroutine_traits).
 // Reads cases from stdin, prints one canonical line per input line (see lean/Drivers/C04.lean).
 //
-//   case <id> async <int|void|mo|ref> <nExt>      (ref: async<int &>, results are references to cells of a static array)
+//   case <id> async <int|void|mo|ref|pk> <nExt>   (ref: async<int &>, results are references to cells of a static array;
+//                                                   pk: async<picky>, a result type whose construction can THROW - see struct picky)
 //   coro <i> <act>...        script of instance i (acts below)                      -> "def"
 //   new i | drop i | detach i | start i | fut i | fcoro i | startp i k | startpm i k (rvalue overload) | join i v | pool i
 //   startop i   start(promise) into the result future of an operation object (future + completion callback) whose
@@ -12,7 +13,11 @@
 // acts: c | w<k> W<k> (await external future k; capital = exception not caught) | a<j> A<j> (co_await child)
 //       | s<j> S<j> (child.start() then co_await the future) | f<j> F<j> (future<T> f(child)) | r<j> R<j> (child is a
 //       future<T>-coroutine) | d<j> (child.detach() discarded) | D<j> (co_await child.detach()) | u<j> (child dropped
-//       unstarted) | t<code> (throw) | v<val> (co_return val + sum of awaited values)
+//       unstarted) | t<code> (throw) | v<val> (co_return val + sum of awaited values; for pk the operand is a long: the
+//       result is constructed inside the bound future by the converting constructor) | k<val> (same value, but the operand
+//       is a const object of the result type: the result is COPY-constructed inside the bound future; = v for the other types)
+//   The `r<i>=` event is what the body ended with: its value, or the exception that left it - including the exception thrown
+//   by the construction of the result value at co_return (it propagates out of `co_return` through the body).
 #include "common.h"
 #include <cocls/async.h>
 #include <cocls/thread_pool.h>
@@ -30,6 +35,24 @@ struct mo {   // move-only result type
     explicit mo(long v) : p(new long(v)) {}
     mo(mo &&) = default;
     mo &operator=(mo &&) = default;
+    long get() const { return p ? *p : -777; }
+};
+
+// result type whose construction can throw: the converting constructor throws for v % 4 == 1, the copy constructor for
+// v % 4 == 2 (lean/Drivers/C04.lean: pickyExc); moving never throws and empties the source; pk_raw builds any value
+struct pk_raw_t {};
+static constexpr pk_raw_t pk_raw{};
+struct picky {
+    std::unique_ptr<long> p;
+    picky(long v) : p(new long(v)) {
+        if (v % 4 == 1) throw test_exc(20 + (int)(v % 3));
+    }
+    picky(pk_raw_t, long v) : p(new long(v)) {}
+    picky(const picky &o) : p(new long(o.get())) {
+        if (o.get() % 4 == 2) throw test_exc(30 + (int)(o.get() % 3));
+    }
+    picky(picky &&) noexcept = default;
+    picky &operator=(picky &&) noexcept = default;
     long get() const { return p ? *p : -777; }
 };
 
@@ -75,6 +98,7 @@ struct cstorage {
         *reinterpret_cast<int *>(p) = id;
         *reinterpret_cast<std::size_t *>(p + 8) = sz;
         g_cx->ev(0, id, "+f" + std::to_string(id));
+        if (getenv("H_ASYNC_SZ")) fprintf(stderr, "frame %d size %zu (mod 16: %zu)\n", id, sz, sz % 16);
         return p + 16;
     }
     static void dealloc(void *ptr, std::size_t sz) {
@@ -157,23 +181,37 @@ inline long cell_index(int &r) {
 }
 template <typename T> long peek(std::remove_reference_t<T> &v) {
     if constexpr (std::is_reference_v<T>) return cell_index(v);
-    else if constexpr (std::is_same_v<T, mo>) return v.get();
+    else if constexpr (std::is_same_v<T, mo> || std::is_same_v<T, picky>) return v.get();
     else return v;
 }
 template <typename T> long take(std::remove_reference_t<T> &v) {
     if constexpr (std::is_same_v<T, mo>) { mo m(std::move(v)); return m.get(); }
+    else if constexpr (std::is_same_v<T, picky>) { picky m(std::move(v)); return m.get(); }
     else return peek<T>(v);
 }
 inline std::string vstr(long v) { return v == -1 ? "v:dangling" : v == -2 ? "v:corrupt" : "v:" + std::to_string(v); }
 template <typename T> decltype(auto) mk(long v) {
     if constexpr (std::is_reference_v<T>) return (g_cells[v < 0 ? 0 : v % NCELLS]);
+    else if constexpr (std::is_same_v<T, picky>) return picky(pk_raw, v);
     else return T(v);
 }
 
-template <typename T> async_t<T> coro_fn(cstorage &st, int id, guard g, std::vector<act_t> sc);
-template <typename T> future<T> fcoro_fn(cstorage &st, int id, guard g, std::vector<act_t> sc);
+// frame sizes of both residues mod 16 for every result type: the coroutine functions take a padding argument (kept in the
+// frame) of 8 or 16 bytes, chosen by the parity of the instance id (a size-sensitive storage sees frames that are and frames
+// that are not a multiple of alignof(max_align_t)); H_ASYNC_SZ=1 prints the sizes
+template <int N> struct pad_t { char b[N]; };
+static volatile long g_pad_sink = 0;
+template <typename T, int P> async_t<T> coro_fn(cstorage &st, int id, guard g, std::vector<act_t> sc, pad_t<P> padv);
+template <typename T, int P> future<T> fcoro_fn(cstorage &st, int id, guard g, std::vector<act_t> sc, pad_t<P> padv);
 
-template <typename T> async_t<T> make(int id) { return coro_fn<T>(store_for(id), id, guard(id, 'a'), g_cx->script(id)); }
+template <typename T> async_t<T> make(int id) {
+    if (id % 2) return coro_fn<T, 8>(store_for(id), id, guard(id, 'a'), g_cx->script(id), pad_t<8>{});
+    return coro_fn<T, 16>(store_for(id), id, guard(id, 'a'), g_cx->script(id), pad_t<16>{});
+}
+template <typename T> future<T> make_f(int id) {
+    if (id % 2) return fcoro_fn<T, 8>(store_for(id), id, guard(id, 'a'), g_cx->script(id), pad_t<8>{});
+    return fcoro_fn<T, 16>(store_for(id), id, guard(id, 'a'), g_cx->script(id), pad_t<16>{});
+}
 
 // `co_await EXPR`, value extracted with GET; exceptions caught iff the act says so; SRC names the awaited party
 #define SAW(O) g_cx->ev(2, id * 1000L + nsaw, "s" + std::to_string(id) + "." + std::to_string(nsaw) + ":" + (SRCV) + "=" + (O)), ++nsaw
@@ -195,12 +233,29 @@ template <typename T> async_t<T> make(int id) { return coro_fn<T>(store_for(id),
         }                                                                                  \
     } while (0)
 
-#define RESULT(O) g_cx->ev(3, id, "r" + std::to_string(id) + "=" + (O))
+// reports what the body ended with when the body's scope is left (normally or by an exception): at `co_return` the value
+// named there - unless constructing the result from it throws, then that exception (set by the handler below)
+struct result_reporter {
+    int id;
+    std::string o;
+    ~result_reporter() { if (o != "?") g_cx->ev(3, id, "r" + std::to_string(id) + "=" + o); }   // "?": frame destroyed while suspended
+};
+#define RESULT(O) rr.o = (O)
 #define VALSTR(V) (std::is_void_v<T> ? std::string("ok") : "v:" + std::to_string(V))
+// the three spellings of co_return: nothing / an operand the result is converted from (pk: long -> picky(long) inside the
+// bound future; others: a prvalue of T moved there) / a const object of the result type (copied there)
+#define CO_RETURN(COPY, V)                                                                 \
+    if constexpr (std::is_void_v<T>) co_return;                                            \
+    else if constexpr (std::is_same_v<T, picky>) {                                         \
+        if (COPY) { picky tmp(pk_raw, (V)); co_return std::as_const(tmp); }                \
+        else co_return (long)(V);                                                          \
+    } else co_return mk<T>(V)
 
 #define CORO_BODY()                                                                        \
     g_cx->ev(1, id, "b" + std::to_string(id));                                             \
     guard local(id, 'l');                                                                  \
+    result_reporter rr{id, "?"};                                                           \
+    struct pad_use { pad_t<P> &p; ~pad_use() { g_pad_sink = g_pad_sink + p.b[0]; } } pu{padv};  \
     long acc = 0;                                                                          \
     int nsaw = 0;                                                                          \
     try {                                                                                  \
@@ -235,7 +290,7 @@ template <typename T> async_t<T> make(int id) { return coro_fn<T>(store_for(id),
                 break;                                                                     \
             case 'r': case 'R':                                                            \
                 if (g_cx->take_absent((int)n)) {                                           \
-                    AWAIT_STEP(fcoro_fn<T>(store_for((int)n), (int)n, guard((int)n, 'a'), g_cx->script((int)n)), take, cn); \
+                    AWAIT_STEP(make_f<T>((int)n), take, cn);                               \
                 }                                                                          \
                 break;                                                                     \
             case 'd':                                                                      \
@@ -248,23 +303,21 @@ template <typename T> async_t<T> make(int id) { return coro_fn<T>(store_for(id),
                 if (g_cx->take_absent((int)n)) { auto child = make<T>((int)n); (void)child; } \
                 break;                                                                     \
             case 't': throw test_exc((int)n);                                              \
-            case 'v':                                                                      \
+            case 'v': case 'k':                                                            \
                 RESULT(VALSTR(n + acc));                                                   \
-                if constexpr (std::is_void_v<T>) co_return;                                \
-                else co_return mk<T>(n + acc);                                             \
+                CO_RETURN(kind == 'k', n + acc);                                           \
             default: break;                                                                \
         }                                                                                  \
     }                                                                                      \
     RESULT(VALSTR(acc));                                                                   \
-    if constexpr (std::is_void_v<T>) co_return;                                            \
-    else co_return mk<T>(acc);                                                             \
+    CO_RETURN(false, acc);                                                                 \
     } catch (...) {                                                                        \
         RESULT(classify(std::current_exception()));                                        \
         throw;                                                                             \
     }
 
-template <typename T> async_t<T> coro_fn(cstorage &, int id, guard, std::vector<act_t> sc) { CORO_BODY() }
-template <typename T> future<T> fcoro_fn(cstorage &, int id, guard, std::vector<act_t> sc) { CORO_BODY() }
+template <typename T, int P> async_t<T> coro_fn(cstorage &, int id, guard, std::vector<act_t> sc, pad_t<P> padv) { CORO_BODY() }
+template <typename T, int P> future<T> fcoro_fn(cstorage &, int id, guard, std::vector<act_t> sc, pad_t<P> padv) { CORO_BODY() }
 
 template <typename T> std::string outcome_of(future<T> &f) {
     if (!f.ready()) return "pending";
@@ -283,7 +336,7 @@ template <typename T> struct opcore : awaiter {
     future<T> result;
     int id;
     bool orphan = false;
-    explicit opcore(int i) : id(i) { set_resume_fn(&opcore::done); }
+    explicit opcore(int i) : id(i) { VN_awaiter_set_resume_fn(&opcore::done); }
     static suspend_point<void> done(awaiter *me, void *) noexcept {
         auto self = static_cast<opcore *>(me);
         g_cx->ev(10, self->id, "O" + std::to_string(self->id) + "=" + outcome_of(self->result) + (self->orphan ? "!late" : ""));
@@ -467,7 +520,7 @@ template <typename T> void run_case(std::istream &in, int next) {
         } else if (op == "fcoro") {
             int i = (int)arg(1);
             if (!cx.take_absent(i)) head = "bad-op";
-            else slots.push_back({std::unique_ptr<future<T>>(new future<T>([&] { return fcoro_fn<T>(store_for(i), i, guard(i, 'a'), cx.script(i)); }))});
+            else slots.push_back({std::unique_ptr<future<T>>(new future<T>([&] { return make_f<T>(i); }))});
         } else if (op == "set" || op == "exc" || op == "dropp" || op == "tset" || op == "texc") {
             long k = arg(1);
             if (k < 0 || k >= (long)wd.ext.size()) head = "bad-op";
@@ -501,6 +554,7 @@ int main() {
         else if (ty == "void") run_case<void>(std::cin, next);
         else if (ty == "mo") run_case<mo>(std::cin, next);
         else if (ty == "ref") run_case<int &>(std::cin, next);
+        else if (ty == "pk") run_case<picky>(std::cin, next);
         else std::cout << "bad-kind\n";
         std::cout.flush();
     }
